@@ -133,6 +133,16 @@ CHECKS["C03"] = dict(
          "with source-identifying tomograms are compared with the model.",
     design="5 C03", technique="Lean 4 proof (scatter correctness for all key sequences) + history correspondence")
 
+CHECKS["C10"] = dict(
+    text="Theorems: for every number of threads and EVERY schedule of TemplateMaskCache.get (statement "
+         "granularity; Backend keys compared by wrapped module, cache filled at construction) no thread "
+         "raises, the dict never changes and every get returns the stored value (invariant by induction over "
+         "the schedule); pure tasks stored by index are order-free; batch tasks in molecule order; up-sampled "
+         "landscape mesh size and containment. Model schedules are replayed on the real class with a "
+         "deterministic sys.monitoring bytecode scheduler. Preemption inside C extensions and dask's own "
+         "scheduler internals cannot be exhibited by the model (partial).",
+    design="5 C10", technique="Lean 4 proof (invariant over all schedules) + deterministic schedule replay")
+
 NOT_YET = {}
 
 
